@@ -213,7 +213,8 @@ class C01(Check):
                                "end_time": fmt_ts(T2), "applied_bias": rng.choice([0.001, 0.01, -0.01, 0.5])})
         cfg["events"] = events
         ncalls = rng.choice([1, 1, 2])
-        plan = [{"seconds": nrun * step}] if ncalls == 1 or nrun < 2 else [{"seconds": step * rng.randrange(1, nrun)}, {"seconds": nrun * step}]
+        # two consecutive calls: the first may ask for a time inside a step (it stops at the boundary before it and the second call continues)
+        plan = [{"seconds": nrun * step}] if ncalls == 1 or nrun < 2 else [{"seconds": step * rng.randrange(1, nrun) + (rng.randrange(1, step) if rng.random() < 0.4 else 0)}, {"seconds": nrun * step}]
         sched = {"name": "seeded", "seed": rng.randrange(2**31), "retry_rate": rng.choice([0.0, 0.0, 0.15])}
         return {"config": cfg, "plan": plan, "schedule": sched, "job_seed": rng.randrange(2**31)}
 
